@@ -404,6 +404,145 @@ theorem mutesI_linearizable (c' : Cache)
 
 end interleaved
 
+/-! ### which operations keep active silences active at the call's instant -/
+
+theorem activeMatching_congr (env : Env) (now : Int) (ls : LabelSet) (s s' : Store) (id : String)
+    (h : lookup s'.st id = lookup s.st id) : activeMatching env s' now ls id = activeMatching env s now ls id := by
+  unfold activeMatching; rw [h]
+
+/-- writing a version `m` that is active at `now` and carries the stored matchers (whenever the
+    stored version is active and matches) keeps every active matching silence active and matching -/
+theorem keepsActive_setSilence (env : Env) (now : Int) (ls : LabelSet) (s : Store) (m : Mesh)
+    (h : ∀ p, lookup s.st m.sil.id = some p → getState p.sil now = .active →
+        getState m.sil now = .active ∧ m.sil.sets = p.sil.sets) :
+    KeepsActive env now ls s (setSilence now s m).1 := by
+  intro id hid
+  by_cases hk : m.sil.id = id
+  · subst hk
+    unfold activeMatching at hid ⊢
+    rw [setSilence_lookup]
+    simp only [if_true]
+    cases hl : lookup s.st m.sil.id with
+    | none => simp [hl] at hid
+    | some p =>
+      simp only [hl, Bool.and_eq_true, decide_eq_true_eq] at hid
+      obtain ⟨h1, h2⟩ := h p hl hid.1
+      unfold upd
+      by_cases hx : m.exp < now
+      · simp [hx, hid.1, hid.2]
+      · by_cases hp : p.sil.updated < m.sil.updated
+        · simp [hx, hp, h1, h2, hid.2]
+        · simp [hx, hp, hid.1, hid.2]
+  · rw [activeMatching_congr env now ls s _ id (by rw [setSilence_lookup]; simp [hk])]
+    exact hid
+
+theorem keepsActive_expireCore (env : Env) (ret now : Int) (ls : LabelSet) (s : Store) (p : Mesh)
+    (hl : lookup s.st p.sil.id = some p) : KeepsActive env now ls s (expireCore ret now s p.sil).1 := by
+  unfold expireCore
+  cases hx : expiredVersion now p.sil with
+  | none => exact keepsActive_refl env now ls s
+  | some x =>
+    simp only
+    apply keepsActive_setSilence
+    intro q hq hact
+    have hid : (toMesh ret x).sil.id = p.sil.id := expiredVersion_id now p.sil x hx
+    rw [hid, hl] at hq
+    injection hq with hq
+    subst hq
+    unfold expiredVersion at hx
+    simp only [hact] at hx
+    injection hx with hx
+    subst hx
+    refine ⟨?_, rfl⟩
+    unfold getState at hact ⊢
+    simp only [toMesh]
+    by_cases h1 : now < p.sil.start
+    · simp [h1] at hact
+    · simp [h1]
+
+/-- **`Expire` at instant `now` does not end a silence at `now`** (it ends it for every later
+    instant): a racing `Mutes` that evaluates at the same instant may still report it. -/
+theorem expire_keepsActive (env : Env) (ret now : Int) (ls : LabelSet) (s : Store) (id : String)
+    (r : Store × List Mesh) (hi : IndexInv s) (h : expire ret now s id = .ok r) :
+    KeepsActive env now ls s r.1 := by
+  unfold expire at h
+  cases hl : lookup s.st id with
+  | none => simp [hl] at h
+  | some p =>
+    simp [hl] at h
+    subst h
+    have hpid : p.sil.id = id := hi.keyId id p hl
+    exact keepsActive_expireCore env ret now ls s p (by rw [hpid]; exact hl)
+
+/-- **`Set` at instant `now` keeps every active matching silence active and matching at `now`** —
+    a create touches no other id, a replacing edit expires the old silence *at* `now`, an
+    in-place edit keeps matchers, start (to the second) and an end not before `now` — provided an
+    in-place edit of an active silence does not move its start past `now` (`canUpdate` compares
+    starts to the second only, so the code allows that within the current second). -/
+theorem set_keepsActive (env : Env) (ret : Int) (maxSil : Nat) (now : Int) (ls : LabelSet) (s : Store)
+    (inp : SilIn) (newId : String) (big : Bool) (r : SetOk) (hi : IndexInv s)
+    (hfresh : lookup s.st newId = none)
+    (hstart : ∀ p, lookup s.st inp.id = some p → getState p.sil now = .active →
+        canUpdate p.sil (silOfIn inp now) now = true → inp.start.getD now ≤ now)
+    (h : set env ret maxSil now s inp newId big = .ok r) :
+    KeepsActive env now ls s r.store := by
+  unfold set at h
+  by_cases hv : (!validate env inp.sets (inp.start.getD now) inp.stop) = true
+  · simp [hv] at h
+  · by_cases hn : inp.id ≠ "" ∧ lookup s.st inp.id = none
+    · simp [hv, hn] at h
+    · simp only [hv, hn, if_false] at h
+      by_cases hu : canUpdatePrev (lookup s.st inp.id) (silOfIn inp now) now = true
+      · simp only [hu, if_true] at h
+        unfold setUpdate at h
+        by_cases hb : big = true
+        · simp [hb] at h
+        · simp only [hb] at h
+          injection h with h; subst h
+          simp only
+          apply keepsActive_setSilence
+          intro q hq hact
+          have : (toMesh ret (silOfIn inp now)).sil.id = inp.id := rfl
+          rw [this] at hq
+          unfold canUpdatePrev at hu
+          simp only [hq] at hu
+          have hst := hstart q hq hact hu
+          unfold canUpdate at hu
+          simp only [hact, Bool.and_eq_true, decide_eq_true_eq, Bool.not_eq_true', decide_eq_false_iff_not] at hu
+          obtain ⟨hsets, _, hstop⟩ := hu
+          refine ⟨?_, hsets.symm⟩
+          unfold getState
+          simp only [toMesh, silOfIn] at hstop ⊢
+          have h1 : ¬ now < inp.start.getD now := by omega
+          have h2 : ¬ now > inp.stop.getD 0 := by omega
+          simp [h1, h2]
+      · simp only [hu] at h
+        unfold setCreate at h
+        by_cases hlim : maxSil > 0 ∧ s.st.length + 1 > maxSil
+        · simp [hlim] at h
+        · by_cases hb : big = true
+          · simp [hlim, hb] at h
+          · simp only [hlim, hb, if_false] at h
+            injection h with h; subst h
+            simp only
+            have h1 : KeepsActive env now ls s (expirePrev ret now s (lookup s.st inp.id)).1 ∧
+                lookup (expirePrev ret now s (lookup s.st inp.id)).1.st newId = none := by
+              cases hl : lookup s.st inp.id with
+              | none => exact ⟨keepsActive_refl env now ls s, hfresh⟩
+              | some p =>
+                have hpid : p.sil.id = inp.id := hi.keyId inp.id p hl
+                refine ⟨keepsActive_expireCore env ret now ls s p (by rw [hpid]; exact hl), ?_⟩
+                simp only [expirePrev]
+                rw [expireCore_lookup_ne ret now s p.sil newId]
+                · exact hfresh
+                · rw [hpid]; intro he; rw [he, hfresh] at hl; cases hl
+            refine keepsActive_trans h1.1 ?_
+            apply keepsActive_setSilence
+            intro q hq _
+            have : (toMesh ret (raised (silOfIn inp now) newId now)).sil.id = newId := rfl
+            rw [this, h1.2] at hq
+            cases hq
+
 /-- **After any interleaved call the next call is exactly right**: the call after an
     interleaved one (the store having moved on by any further `Step`) reports the brute-force
     verdict and id list of the store it runs on. -/
@@ -421,5 +560,56 @@ theorem mutesI_next_call_exact (msOf : String → MatcherSets) (env : Env) (now 
   have h4 := cacheInv_time msOf env s4 c'' now now' hle (cacheInv_step msOf env s3 s4 c'' now h3 h34)
   obtain ⟨g1, g2, _⟩ := mutes_correct msOf env s4 c'' now' ls' hi4 hm4 h4
   exact ⟨g2, g1⟩
+
+/-! ### the seeded discipline, and why `KeepsActive` is needed -/
+
+private def envI : Env := { re := fun _ _ => false, reOk := fun _ => true, nameOk := fun n => n ≠ "" }
+private def lsI : LabelSet := [("a", "1")]
+private def inX : SilIn := { id := "", sets := [[⟨.eq, "a", "1"⟩]], start := some 0, stop := some 10, comment := "" }
+private def inY : SilIn := { id := "", sets := [[⟨.eq, "a", "1"⟩]], start := some 2, stop := some 10, comment := "" }
+
+/-- create X; `Mutes` (caches X at version 1) -/
+private def σ0 : Sys := [Op.set 0 inX "x" false, .mutes 1 lsI].foldl (Sys.step true envI 0 0) {}
+/-- … a second matching silence Y is created while a `Mutes` call is between its version read
+    and its re-query of the cached ids -/
+private def sY : Store := (Sys.step true envI 0 0 σ0 (.set 2 inY "y" false)).store
+/-- the cache that call leaves behind under discipline `late`, then X is expired -/
+private def afterI (late : Bool) : Sys :=
+  Sys.step true envI 0 0
+    { store := sY, cache := (mutesI late envI 2 lsI σ0.store sY sY σ0.cache σ0.cache).cache } (.expire 3 "x")
+
+/-- **The seeded discipline loses the update.**  With the cache version taken from the
+    re-query of the cached ids (`late = true`) the entry claims version 2 without Y ever having
+    been matched against the alert: once X has been expired, `Mutes` answers "not muted" while
+    the stored silence Y is active and matches.  Under the code's discipline (`late = false`)
+    the same history answers "muted by Y". -/
+theorem interleaved_update_lost_counterexample :
+    cacheGet (afterI true).cache lsI = { version := 2, ids := ["x"] } ∧
+    activeMatching envI (afterI true).store 4 lsI "y" = true ∧
+    (mutes envI (afterI true).store (afterI true).cache 4 lsI).muted = false ∧
+    cacheGet (afterI false).cache lsI = { version := 1, ids := ["x"] } ∧
+    (mutes envI (afterI false).store (afterI false).cache 4 lsI).silencedBy = ["y"] := by
+  decide
+
+private def inP : SilIn := { id := "", sets := [[⟨.eq, "a", "1"⟩]], start := some 10, stop := some 20, comment := "" }
+private def inZ : SilIn := { id := "", sets := [[⟨.eq, "a", "1"⟩]], start := some 2, stop := some 20, comment := "" }
+/-- pending P cached at version 1, then active Z indexed at version 2 -/
+private def σm : Sys :=
+  [Op.set 0 inP "p" false, .mutes 1 lsI, .set 2 inZ "z" false].foldl (Sys.step true envI 0 0) {}
+/-- one gossip message re-dates both: P starts now, Z starts later -/
+private def sM : Store :=
+  (mergeBatch true 3 false σm.store
+    [{ sil := { id := "p", sets := [[⟨.eq, "a", "1"⟩]], start := 3, stop := 20, updated := 3, comment := "" }, exp := 20 },
+     { sil := { id := "z", sets := [[⟨.eq, "a", "1"⟩]], start := 10, stop := 20, updated := 3, comment := "" }, exp := 20 }]).1
+
+/-- Why `mutesI_linearizable` asks for `KeepsActive`: a merged message may re-date silences to any
+    instant.  Here the alert is muted by Z before the message and by P after it, the call
+    re-queries P before and scans Z after — and answers "not muted", the verdict of no single
+    store state (the bracket of `mutes_interleaved_bracket` still holds: no silence is active at
+    all three reads). -/
+theorem merge_interleaving_not_linearizable :
+    activeMatching envI σm.store 3 lsI "z" = true ∧ activeMatching envI sM 3 lsI "p" = true ∧
+    (mutesI false envI 3 lsI σm.store σm.store sM σm.cache σm.cache).muted = false := by
+  decide
 
 end AM.Silence
